@@ -235,7 +235,7 @@ static void blame(char *buf, size_t cap)
 static int reactor(double max_s, const char *phase)
 {
     double t_end = vnow() + max_s;
-    double idle_since = 0;
+    double idle_since = 0, answered_idle_since = 0;
     long polls = 0;
     for (;;) {
         struct pollfd pf[MAXA]; struct agent *who[MAXA]; int n = 0;
@@ -262,7 +262,7 @@ static int reactor(double max_s, const char *phase)
         }
         if (vviol_count() > 0) return 1;
         if (any) {
-            idle_since = 0;
+            idle_since = 0; answered_idle_since = 0;
             char w0[256];
             if ((polls % 64) == 0 && goals_done(w0, sizeof w0)) return 0;
             if (vnow() > t_end) break;
@@ -273,7 +273,21 @@ static int reactor(double max_s, const char *phase)
         if (goals_done(why, sizeof why)) return 0;
         bool timers = vs_armed_timers() > 0;
         bool resolver = vdns_scheduled() > 0;
-        if (timers || resolver) { idle_since = 0; vobs("waits_for_xcm_timer_or_resolver", 1); struct pollfd none; vs_real_poll(&none, 0, 2); if (vnow() > t_end) break; continue; }
+        if (timers || resolver) {
+            idle_since = 0; vobs("waits_for_xcm_timer_or_resolver", 1);
+            /* a timer being armed excuses silence only while something is still outstanding.  Once the resolver has answered every query, the
+             * next step (the first connect attempt, or the failure) is XCM's to take: it must ask for a turn at once, not when dns.timeout ends */
+            if (cur->use_dns && !resolver && vdns_queries() > 0 && vdns_pending() == 0 && vdns_callbacks() > 0 && vs_connect_log_count() == 0) {
+                if (answered_idle_since == 0) answered_idle_since = vnow();
+                if (vnow() - answered_idle_since > 1.0) {
+                    char bl[1600]; blame(bl, sizeof bl);
+                    char kt[96]; snprintf(kt, sizeof kt, "%s:%s", vtp_name[cur->tp], "resolver-answered");
+                    eviol("lost-wakeup", kt, "the resolver delivered its answer more than a second ago, no connect() has been made, no XCM descriptor is readable (only a timer is armed): the application is not asked to make the call that would use the answer. State: %s", bl);
+                    return 1;
+                }
+            } else answered_idle_since = 0;
+            struct pollfd none; vs_real_poll(&none, 0, 2); if (vnow() > t_end) break; continue;
+        }
         if (idle_since == 0) { idle_since = vnow(); vobs("idle_points_with_goals_open", 1); }
         if (vnow() - idle_since > 0.5) {
             char bl[1600]; blame(bl, sizeof bl);
@@ -496,6 +510,38 @@ static void probe_backpressure(struct agent *a, struct agent *p)
         /* bytestream: take the rest of that piece */
         for (int k = 0; k < 50; k++) if (bp_recv_one(a) <= 0) break;
         if (a->ep.term) { vobs("backpressure_probe_broke", 1); return; }
+    }
+    /* input that is already inside the TLS layer: the peer sends two pieces back to back, this end (still write-blocked) takes the first,
+     * tries to send (refused), then awaits RECEIVABLE: the second piece is no longer in the kernel buffer - OpenSSL read it ahead - yet it is
+     * available, and the descriptor must say so */
+    if (vtp_is_tls(a->ep.tp)) {
+        long before = rx_count(a); bool ok2 = true;
+        for (int k2 = 0; k2 < 2 && ok2; k2++) { bool sent = false; for (int k = 0; k < 2000 && !sent; k++) { sent = bp_send_one(p, 40 + vrnd_n(&rng, 100), &err); if (!sent && err != EAGAIN) ok2 = false; if (!ok2) break; } if (!sent) ok2 = false; }
+        for (int k = 0; k < 5000 && ok2; k++) { if (vx_finish(&p->ep) == 0 || errno != EAGAIN) break; }
+        bool arrived = false;
+        for (int k = 0; k < 2000 && rfd >= 0 && ok2; k++) { int q = 0; ioctl(rfd, FIONREAD, &q); if (q > 0) { arrived = true; break; } struct pollfd none; vs_real_poll(&none, 0, 1); }
+        if (ok2 && arrived) {
+            { struct pollfd none; vs_real_poll(&none, 0, 20); }      /* both records are in the kernel buffer by now */
+            /* take the first piece only */
+            size_t cap = a->ep.bytestream ? 16 : 65535; unsigned char *rb = malloc(cap); int r1 = -1;
+            for (int k = 0; k < 3000; k++) { r1 = vx_receive(&a->ep, rb, cap); if (r1 > 0 || (r1 < 0 && errno != EAGAIN) || r1 == 0) break; struct pollfd none; vs_real_poll(&none, 0, 1); }
+            if (r1 > 0) veng_rx_add(&a->ep, rb, r1, cap);
+            free(rb);
+            if (r1 > 0) {
+                int q = 0; if (rfd >= 0) ioctl(rfd, FIONREAD, &q);
+                bool s1 = bp_send_one(a, 60000, &err);           /* still blocked: refused (if it is accepted the write side has opened, fine) */
+                int cond2 = vrnd_p(&rng, 50) ? XCM_SO_RECEIVABLE : (XCM_SO_RECEIVABLE | XCM_SO_SENDABLE);
+                vx_await(&a->ep, cond2);
+                poll_fd(a, &rev);
+                if (q == 0) {
+                    vobs("probe_input_inside_tls_while_write_blocked", 1);
+                    if (!(rev & POLLIN) && !s1) { eviol("not-ready:receivable-inside-tls-under-backpressure", tn, "ep%d is write-blocked (its last xcm_send was refused), a further piece of input has been read ahead by the TLS layer (kernel buffer empty), it awaits condition %d: the xcm fd is not readable", a->ep.id, cond2); return; }
+                }
+                for (int k = 0; k < 3000 && rx_count(a) < before + (a->ep.bytestream ? 80 : 2); k++) { int r2 = bp_recv_one(a); if (r2 < 0) { vobs("backpressure_probe_broke", 1); return; } if (r2 == 0) { struct pollfd none; vs_real_poll(&none, 0, 1); } }
+                for (int k = 0; k < 50; k++) if (bp_recv_one(a) <= 0) break;
+                if (a->ep.term) { vobs("backpressure_probe_broke", 1); return; }
+            }
+        }
     }
     /* the peer reads on: the write direction opens, everything accepted arrives */
     double t0 = vnow(); bool done = false;
